@@ -925,4 +925,93 @@ theorem trun_refines (n : Str) : ∀ (as : List TAct) (s s' : TSt) (tr : List Ev
 theorem idle_inv (n : Str) (o : Obj) (hi : ObjInv o) (hq : o.q = []) (ha : o.acq = []) : TInv n ⟨o, []⟩ :=
   ⟨hi, by simp [hq], by simp [ha], by simp [hq], by simp [ha], by intro t th hg; simp at hg⟩
 
+
+/-- the size of the lock object never changes -/
+theorem trun_size (n : Str) : ∀ (as : List TAct) (s s' : TSt) (tr : List Ev), TInv n s →
+    trun n s as = some (s', tr) → s'.o.size = s.o.size := by
+  intro as
+  induction as with
+  | nil => intro s s' tr _ hr; simp [trun] at hr; rw [← hr.1]
+  | cons a as ih =>
+    intro s s' tr h hr
+    simp only [trun] at hr
+    cases hs : tstep n s a with
+    | none => simp [hs] at hr
+    | some r =>
+      obtain ⟨s1, ev1⟩ := r
+      simp only [hs] at hr
+      cases hr2 : trun n s1 as with
+      | none => simp [hr2] at hr
+      | some r2 =>
+        simp [hr2] at hr
+        obtain ⟨rfl, -⟩ := hr
+        obtain ⟨h1, -⟩ := good_step a h hs
+        have e1 : s1.o.size = s.o.size := by
+          rcases tstep_obj a hs with ⟨_, hsz, _, _⟩ | ⟨act, _, hso⟩
+          · exact hsz
+          · exact (stepObj_inv n s.o s1.o act _ h.obj hso).2
+        rw [ih s1 r2.1 r2.2 h1 hr2, e1]
+
+/-! ### what `wf` gives: every attributed operation lies inside its call's interval -/
+
+/-- in a well-formed trace an operation attributed to a thread that has no open call is preceded by an
+invocation of that thread: no operation before the call's `inv`, none after its `ret` -/
+theorem lin_after_inv (n : Str) : ∀ (tr : List Ev) (os : List (Tid × Call × List AOp)) (t : Tid),
+    wf n os tr = true → AMap.get os t = none →
+    ∀ (p q : List Ev) (op : AOp), tr = p ++ .lin t op :: q → ∃ c, Ev.inv t c ∈ p := by
+  intro tr
+  induction tr with
+  | nil => intro os t _ _ p q op h; simp at h
+  | cons e es ih =>
+    intro os t hw hg p q op hsplit
+    cases p with
+    | nil =>
+      simp at hsplit
+      obtain ⟨rfl, rfl⟩ := hsplit
+      simp [wf, hg] at hw
+    | cons e' p' =>
+      simp at hsplit
+      obtain ⟨rfl, hrest⟩ := hsplit
+      cases e with
+      | inv t' c =>
+        by_cases e : t' = t
+        · exact ⟨c, by simp [e]⟩
+        · simp only [wf, Bool.and_eq_true] at hw
+          have hg' : AMap.get (AMap.set os t' (c, [])) t = none := by
+            rw [AMap.get_set_ne _ _ _ _ e]; exact hg
+          obtain ⟨c', hc'⟩ := ih _ t hw.2 hg' p' q op hrest
+          exact ⟨c', by simp [hc']⟩
+      | lin t' op' =>
+        simp only [wf] at hw
+        split at hw
+        · rename_i c l hgt
+          have e : t' ≠ t := fun e => by rw [e, hg] at hgt; cases hgt
+          have hg' : AMap.get (AMap.set os t' (c, l ++ [op'])) t = none := by
+            rw [AMap.get_set_ne _ _ _ _ e]; exact hg
+          obtain ⟨c', hc'⟩ := ih _ t hw hg' p' q op hrest
+          exact ⟨c', by simp [hc']⟩
+        · cases hw
+      | ret t' ok =>
+        simp only [wf] at hw
+        split at hw
+        · rename_i c l hgt
+          simp only [Bool.and_eq_true] at hw
+          have hg' : AMap.get (AMap.del os t') t = none := by
+            by_cases e : t' = t
+            · rw [e]; exact AMap.get_del_eq _ _
+            · rw [AMap.get_del_ne _ _ _ e]; exact hg
+          obtain ⟨c', hc'⟩ := ih _ t hw.2 hg' p' q op hrest
+          exact ⟨c', by simp [hc']⟩
+        · cases hw
+
+/-- … and after a call has returned nothing is attributed to its thread until the thread's next invocation -/
+theorem no_lin_after_ret (n : Str) (os : List (Tid × Call × List AOp)) (t : Tid) (ok : Bool) (es : List Ev)
+    (hw : wf n os (.ret t ok :: es) = true) (p q : List Ev) (op : AOp) (h : es = p ++ .lin t op :: q) :
+    ∃ c, Ev.inv t c ∈ p := by
+  simp only [wf] at hw
+  split at hw
+  · simp only [Bool.and_eq_true] at hw
+    exact lin_after_inv n es _ t hw.2 (AMap.get_del_eq _ _) p q op h
+  · cases hw
+
 end Ldlm.Threads
